@@ -1,14 +1,750 @@
 /-
-  C11 — PSBT review summary is faithful: change is only what the wallet can spend.
-  (property theorems; helper lemmas in Buidl.Proofs.Psbt*)
--/
-import Buidl.Model.PsbtDescribe
-namespace Buidl.Props.C11
-open Buidl Buidl.Psbt
+  C11 — the PSBT review summary (PSBT.describe_basic_multisig) is faithful: the arithmetic is that
+  of the transaction, an output is labelled change only if the wallet can spend it, and mismatching
+  metadata is refused instead of summarised.
 
-/-- placeholder replaced below by the full theorem list -/
-theorem describe_validates_first {Tx} (cfg : DescribeCfg) (H : Hashes) (C : TxCodec Tx) (O : Oracles)
-    (cm : Dict Bytes) (p : Psbt Tx) (h : p.validate H C O = none) : describe cfg H C O cm p = none := by
-  simp [describe, h]
+  Model: Buidl.Model.PsbtDescribe / PsbtCodec (the code with the `fix:` patches of work/C10 and
+  work/C11 applied; the two repairs of `describe` itself are flags of `DescribeCfg`).  Helper lemmas:
+  Buidl.Proofs.PsbtDescribe.  `H` (hash160 / sha256), the transaction codec `C` and the oracles `O`
+  (BIP32 derivation) are arbitrary throughout; no theorem assumes a hash to be injective.
+
+  Notation: `hmapOf cm p` is the `hdpubkey_map` the summary works with (the caller's `cm`, or — when
+  that is empty — the one built from the PSBT's global xpubs).
+
+  A  summary_fee, summary_totals, summary_partition, summary_outputs, summary_single_change
+  B  change_commits_by_hash, change_is_plain_multisig, change_keys_perm, change_one_key_per_cosigner,
+     change_is_wallet_multisig (the three together, repaired configuration)
+  C  describe_refuses_invalid_output / _input (lifting), tamper_* (one per catalogue item)
+  D  F11a_witness, F11e_witness (the defects with the repair flags off), F11g_witness (open observation)
+-/
+import Buidl.Proofs.PsbtDescribe
+namespace Buidl.Props.C11
+open Buidl Buidl.Psbt Buidl.Script
+
+/-! ## A. the arithmetic of the summary -/
+
+/-- the totals are those of the transaction's outputs and of the inputs' recorded values -/
+theorem summary_totals {Tx} (cfg : DescribeCfg) (H : Hashes) (C : TxCodec Tx) (O : Oracles) (cm : Dict Bytes)
+    (p : Psbt Tx) (s : Summary) (h : describe cfg H C O cm p = some s) :
+    s.totalOut = ((C.outs p.tx).map (·.amount)).foldl (· + ·) 0 ∧
+    ∃ vals, p.ins.mapM (·.value) = some vals ∧ s.totalIn = vals.foldl (· + ·) 0 := by
+  obtain ⟨ins, outs, hins, houts, _, _, hti, hto, _, _, _, _, hlo, _⟩ := describe_facts h
+  obtain ⟨_, htot, _, _⟩ := outsLoop_spec _ _ _ _ houts
+  obtain ⟨_, ⟨vals, hvals, hvt⟩, _⟩ := insLoop_spec _ _ _ _ hins
+  refine ⟨?_, vals, hvals, ?_⟩
+  · rw [hto, htot, ← hlo, List.take_length]
+    show 0 + _ = _
+    omega
+  · rw [hti, hvt]
+    show 0 + _ = _
+    omega
+
+/-- the fee shown is the sum of the inputs minus the sum of the outputs -/
+theorem summary_fee {Tx} (cfg : DescribeCfg) (H : Hashes) (C : TxCodec Tx) (O : Oracles) (cm : Dict Bytes)
+    (p : Psbt Tx) (s : Summary) (h : describe cfg H C O cm p = some s) :
+    s.fee = (s.totalIn : Int) - (s.totalOut : Int) := by
+  obtain ⟨hto, vals, hvals, hti⟩ := summary_totals cfg H C O cm p s h
+  obtain ⟨_, _, _, _, _, _, _, _, _, _, _, _, _, _, hfee, _⟩ := describe_facts h
+  unfold txFee at hfee
+  simp only [hvals, Option.bind_eq_bind, Option.bind_some, Option.pure_def, Option.some.injEq] at hfee
+  rw [← hfee, hti, hto]
+
+/-- spend + change = outputs, and spend + change + fee = inputs -/
+theorem summary_partition {Tx} (cfg : DescribeCfg) (H : Hashes) (C : TxCodec Tx) (O : Oracles) (cm : Dict Bytes)
+    (p : Psbt Tx) (s : Summary) (h : describe cfg H C O cm p = some s) :
+    s.spend + s.change = s.totalOut ∧ (s.spend : Int) + (s.change : Int) + s.fee = (s.totalIn : Int) := by
+  obtain ⟨outs, hinv, _, hc, hs, ht⟩ := describe_outInv h
+  have h1 : s.spend + s.change = s.totalOut := by rw [hc, hs, ht]; exact hinv.part
+  refine ⟨h1, ?_⟩
+  rw [summary_fee cfg H C O cm p s h]
+  omega
+
+/-- one description per output, carrying that output's amount; labelled change iff it carries
+    BIP32 derivations (which `describe` then had to verify, see part B) -/
+theorem summary_outputs {Tx} (cfg : DescribeCfg) (H : Hashes) (C : TxCodec Tx) (O : Oracles) (cm : Dict Bytes)
+    (p : Psbt Tx) (s : Summary) (h : describe cfg H C O cm p = some s) :
+    (C.outs p.tx).length = p.outs.length ∧ (C.ins p.tx).length = p.ins.length ∧
+    s.outputs.length = p.outs.length ∧
+    ∀ (j : Nat) (o : TxOutV) (po : POut), (C.outs p.tx)[j]? = some o → p.outs[j]? = some po →
+      s.outputs[j]? = some { sats := o.amount, isChange := decide (po.namedPubs ≠ []) } := by
+  obtain ⟨ins, outs, _, houts, _, _, _, _, _, _, hout, _, hlo, hli, _⟩ := describe_facts h
+  obtain ⟨_, _, hdescs, _⟩ := outsLoop_spec _ _ _ _ houts
+  refine ⟨hlo, hli, ?_, ?_⟩
+  · rw [hout, hdescs]
+    simp [hlo]
+  · intro j o po ho hp
+    exact (describe_output_at h ho hp).2.2.1
+
+/-- at most one output is labelled change, and `change` is its amount (0 if there is none) -/
+theorem summary_single_change {Tx} (cfg : DescribeCfg) (H : Hashes) (C : TxCodec Tx) (O : Oracles) (cm : Dict Bytes)
+    (p : Psbt Tx) (s : Summary) (h : describe cfg H C O cm p = some s) :
+    (∀ (i j : Nat) (di dj : OutDesc), s.outputs[i]? = some di → s.outputs[j]? = some dj →
+      di.isChange = true → dj.isChange = true → i = j) ∧
+    (∀ (j : Nat) (d : OutDesc), s.outputs[j]? = some d → d.isChange = true → s.change = d.sats) ∧
+    ((∀ d ∈ s.outputs, d.isChange = false) → s.change = 0) := by
+  obtain ⟨outs, hinv, ho, hc, _, _⟩ := describe_outInv h
+  have hchg := hinv.chg
+  rw [← ho] at hchg
+  have hlen : (s.outputs.filter (·.isChange)).length ≤ 1 := by
+    have := congrArg List.length hchg
+    rw [List.length_map] at this
+    rw [this]
+    split <;> simp
+  refine ⟨?_, ?_, ?_⟩
+  · intro i j di dj hi hj hdi hdj
+    exact index_unique_of_filter_le_one (·.isChange) s.outputs hlen i j di dj hi hj hdi hdj
+  · intro j d hj hd
+    have hm : d.sats ∈ (s.outputs.filter (·.isChange)).map (·.sats) :=
+      List.mem_map.mpr ⟨d, List.mem_filter.mpr ⟨List.mem_of_getElem? hj, hd⟩, rfl⟩
+    rw [hchg] at hm
+    rw [hc]
+    split at hm
+    · exact (List.mem_singleton.mp hm).symm
+    · simp at hm
+  · intro hall
+    have hf : s.outputs.filter (·.isChange) = [] := by
+      rw [List.filter_eq_nil_iff]
+      intro d hd
+      simp [hall d hd]
+    rw [hf] at hchg
+    rw [hc]
+    cases hs : outs.changeSeen with
+    | false => exact hinv.zero hs
+    | true => simp [hs] at hchg
+
+example : ∃ s, describe .repaired Toy.hashes Toy.codec Toy.oracles Toy.cmap Toy.psbt = some s ∧
+    s.fee = 10 ∧ s.change = 60 ∧ s.spend = 30 ∧ s.m = 1 ∧ s.n = 2 ∧
+    s.outputs = [{ sats := 60, isChange := true }, { sats := 30, isChange := false }] := by
+  decide
+
+/-! ## B. an output is labelled change only if the wallet can spend it -/
+
+/-- B.1  A change output's scriptPubKey commits *by hash* to the script `describe` examined: P2WSH,
+    P2SH-P2WSH or P2SH of that script's serialisation.  (`h160`: the only fact about the hashes used —
+    hash160 values are 20 bytes long, so a 32-byte witness program is not one.) -/
+theorem change_commits_by_hash {Tx} (cfg : DescribeCfg) (H : Hashes) (C : TxCodec Tx) (O : Oracles) (cm : Dict Bytes)
+    (p : Psbt Tx) (s : Summary) (h160 : ∀ b, (H.hash160 b).length = 20)
+    (h : describe cfg H C O cm p = some s)
+    (j : Nat) (o : TxOutV) (po : POut) (d : OutDesc)
+    (ho : (C.outs p.tx)[j]? = some o) (hp : p.outs[j]? = some po)
+    (hd : s.outputs[j]? = some d) (hchange : d.isChange = true) :
+    ∃ script raw, scriptQuorum po.witnessScript po.redeem = some (script, s.m, s.n) ∧ rawOf script = some raw ∧
+      ((po.witnessScript = some script ∧ po.redeem = none ∧ o.spk.cmds = [.op 0, .push (H.sha256 raw)]) ∨
+       (po.witnessScript = some script ∧ ∃ r rraw, po.redeem = some r ∧ rawOf r = some rraw ∧
+          r.cmds = [.op 0, .push (H.sha256 raw)] ∧
+          o.spk.cmds = [.op 0xA9, .push (H.hash160 rraw), .op 0x87]) ∨
+       (po.witnessScript = none ∧ po.redeem = some script ∧
+          o.spk.cmds = [.op 0xA9, .push (H.hash160 raw), .op 0x87])) := by
+  obtain ⟨hv, _, hdesc, hc⟩ := describe_output_at h ho hp
+  rw [hdesc] at hd
+  have hne : po.namedPubs ≠ [] := by
+    cases hd
+    simpa [outDescOf] using hchange
+  obtain ⟨script, xfps, hq, _⟩ := changeOK_some (hc hne)
+  obtain ⟨raw, hraw, hshape⟩ := validateOut_commit h160 hv hq
+  exact ⟨script, raw, hq, hraw, hshape⟩
+
+/-- B.2  (F11e repaired) The script is literally `<m> <keys> <OP_n> OP_CHECKMULTISIG` with the inputs'
+    quorum `(s.m, s.n)`, `m` read off the first command by the `get_quorum` of its class, and its keys
+    are exactly the output's named pubkeys. -/
+theorem change_is_plain_multisig {Tx} (cfg : DescribeCfg) (H : Hashes) (C : TxCodec Tx) (O : Oracles) (cm : Dict Bytes)
+    (p : Psbt Tx) (s : Summary) (hpm : cfg.plainMultisig = true)
+    (h : describe cfg H C O cm p = some s)
+    (j : Nat) (o : TxOutV) (po : POut) (d : OutDesc)
+    (ho : (C.outs p.tx)[j]? = some o) (hp : p.outs[j]? = some po)
+    (hd : s.outputs[j]? = some d) (hchange : d.isChange = true) :
+    ∃ (script : Script) (c0 : Cmd) (keys : List Bytes),
+      scriptQuorum po.witnessScript po.redeem = some (script, s.m, s.n) ∧
+      script.cmds = c0 :: keys.map Cmd.push ++ [.op (80 + keys.length), .op Gen.psbtCheckMultisig] ∧
+      (opCodeToNumber (some c0) = some s.m ∨ opNameNumber (some c0) = some s.m) ∧
+      (keys.length : Int) = s.n ∧ (po.namedPubs.length : Int) = s.n ∧
+      (∀ k, k ∈ keys ↔ k ∈ dkeys po.namedPubs) := by
+  obtain ⟨_, _, hdesc, hc⟩ := describe_output_at h ho hp
+  rw [hdesc] at hd
+  have hne : po.namedPubs ≠ [] := by
+    cases hd
+    simpa [outDescOf] using hchange
+  obtain ⟨script, xfps, hq, hplain, hn, _⟩ := changeOK_some (hc hne)
+  obtain ⟨c0, keys, hcmds, hkl, hkeys, hm⟩ := plainMultisig_shape hq (hplain hpm)
+  exact ⟨script, c0, keys, hq, hcmds, hm, hkl, hn.symm, hkeys⟩
+
+/-- B.2'  When the output's derivation map is a dict (distinct keys — which is what `PSBTOut.parse`
+    builds), the script's keys are the named pubkeys up to order, each exactly once. -/
+theorem change_keys_perm {Tx} (cfg : DescribeCfg) (H : Hashes) (C : TxCodec Tx) (O : Oracles) (cm : Dict Bytes)
+    (p : Psbt Tx) (s : Summary) (hpm : cfg.plainMultisig = true)
+    (h : describe cfg H C O cm p = some s)
+    (j : Nat) (o : TxOutV) (po : POut) (d : OutDesc)
+    (ho : (C.outs p.tx)[j]? = some o) (hp : p.outs[j]? = some po)
+    (hd : s.outputs[j]? = some d) (hchange : d.isChange = true) (hdict : DNodup po.namedPubs) :
+    ∃ (script : Script) (c0 : Cmd) (keys : List Bytes),
+      scriptQuorum po.witnessScript po.redeem = some (script, s.m, s.n) ∧
+      script.cmds = c0 :: keys.map Cmd.push ++ [.op (80 + keys.length), .op Gen.psbtCheckMultisig] ∧
+      keys.Perm (dkeys po.namedPubs) ∧ keys.Nodup := by
+  obtain ⟨script, c0, keys, hq, hcmds, _, hkl, hnl, hkeys⟩ :=
+    change_is_plain_multisig cfg H C O cm p s hpm h j o po d ho hp hd hchange
+  have hperm : keys.Perm (dkeys po.namedPubs) := by
+    apply perm_of_nodup_subset_length _ _ hdict (fun k hk => (hkeys k).mpr hk)
+    have : (dkeys po.namedPubs).length = po.namedPubs.length := by simp [dkeys]
+    omega
+  exact ⟨script, c0, keys, hq, hcmds, hperm, hperm.nodup_iff.mpr hdict⟩
+
+example : DNodup Toy.changeMap.namedPubs := by decide
+
+/-- B.3  (F11a repaired) Every named pubkey is the key its cosigner's xpub — looked up in the map by the
+    path's fingerprint — derives at the stated path; there are `n` named pubkeys, `n` map entries, and the
+    named pubkeys' fingerprints are pairwise distinct: one key per declared cosigner. -/
+theorem change_one_key_per_cosigner {Tx} (cfg : DescribeCfg) (H : Hashes) (C : TxCodec Tx) (O : Oracles)
+    (cm : Dict Bytes) (p : Psbt Tx) (s : Summary) (hdx : cfg.distinctXfps = true)
+    (h : describe cfg H C O cm p = some s)
+    (j : Nat) (o : TxOutV) (po : POut) (d : OutDesc)
+    (ho : (C.outs p.tx)[j]? = some o) (hp : p.outs[j]? = some po)
+    (hd : s.outputs[j]? = some d) (hchange : d.isChange = true) :
+    (po.namedPubs.length : Int) = s.n ∧ ((hmapOf cm p).length : Int) = s.n ∧
+    (∀ sec rawPath, (sec, rawPath) ∈ po.namedPubs →
+      ∃ body, dget (hmapOf cm p) (rawPath.take Gen.psbtFingerprintWidth) = some body ∧
+        deriveAt O body rawPath = some sec) ∧
+    (po.namedPubs.map (fun e => e.2.take Gen.psbtFingerprintWidth)).Nodup := by
+  obtain ⟨_, _, hdesc, hc⟩ := describe_output_at h ho hp
+  rw [hdesc] at hd
+  have hne : po.namedPubs ≠ [] := by
+    cases hd
+    simpa [outDescOf] using hchange
+  obtain ⟨script, xfps, hq, _, hn, hnamed, hdist⟩ := changeOK_some (hc hne)
+  obtain ⟨hx, hall⟩ := checkNamedPubs_some hnamed
+  refine ⟨hn.symm, (describe_n h).symm, hall, ?_⟩
+  rw [← hx]
+  apply nodup_of_eraseDups_length
+  have h1 := hdist hdx
+  have h2 : xfps.length = po.namedPubs.length := by rw [hx]; simp
+  omega
+
+/-- B  With both repairs in place: an output is labelled change only if its scriptPubKey commits by
+    hash to a plain m-of-n multisig script with the inputs' quorum whose keys are exactly one key
+    derived from each declared cosigner xpub at the stated path. -/
+theorem change_is_wallet_multisig {Tx} (H : Hashes) (C : TxCodec Tx) (O : Oracles) (cm : Dict Bytes)
+    (p : Psbt Tx) (s : Summary) (h160 : ∀ b, (H.hash160 b).length = 20)
+    (h : describe .repaired H C O cm p = some s)
+    (j : Nat) (o : TxOutV) (po : POut) (d : OutDesc)
+    (ho : (C.outs p.tx)[j]? = some o) (hp : p.outs[j]? = some po)
+    (hd : s.outputs[j]? = some d) (hchange : d.isChange = true) :
+    ∃ (script : Script) (raw : Bytes) (c0 : Cmd) (keys : List Bytes),
+      -- the script examined, its quorum = the inputs' quorum
+      scriptQuorum po.witnessScript po.redeem = some (script, s.m, s.n) ∧ rawOf script = some raw ∧
+      -- 1. the scriptPubKey commits to it by hash
+      ((po.witnessScript = some script ∧ po.redeem = none ∧ o.spk.cmds = [.op 0, .push (H.sha256 raw)]) ∨
+       (po.witnessScript = some script ∧ ∃ r rraw, po.redeem = some r ∧ rawOf r = some rraw ∧
+          r.cmds = [.op 0, .push (H.sha256 raw)] ∧
+          o.spk.cmds = [.op 0xA9, .push (H.hash160 rraw), .op 0x87]) ∨
+       (po.witnessScript = none ∧ po.redeem = some script ∧
+          o.spk.cmds = [.op 0xA9, .push (H.hash160 raw), .op 0x87])) ∧
+      -- 2. it is a plain m-of-n multisig
+      script.cmds = c0 :: keys.map Cmd.push ++ [.op (80 + keys.length), .op Gen.psbtCheckMultisig] ∧
+      (opCodeToNumber (some c0) = some s.m ∨ opNameNumber (some c0) = some s.m) ∧
+      (keys.length : Int) = s.n ∧
+      -- 3. of exactly the named pubkeys, one per declared cosigner
+      (∀ k, k ∈ keys ↔ k ∈ dkeys po.namedPubs) ∧
+      (po.namedPubs.length : Int) = s.n ∧ ((hmapOf cm p).length : Int) = s.n ∧
+      (∀ sec rawPath, (sec, rawPath) ∈ po.namedPubs →
+        ∃ body, dget (hmapOf cm p) (rawPath.take Gen.psbtFingerprintWidth) = some body ∧
+          deriveAt O body rawPath = some sec) ∧
+      (po.namedPubs.map (fun e => e.2.take Gen.psbtFingerprintWidth)).Nodup := by
+  obtain ⟨script, raw, hq, hraw, hshape⟩ :=
+    change_commits_by_hash .repaired H C O cm p s h160 h j o po d ho hp hd hchange
+  obtain ⟨script', c0, keys, hq', hcmds, hm, hkl, _, hkeys⟩ :=
+    change_is_plain_multisig .repaired H C O cm p s rfl h j o po d ho hp hd hchange
+  obtain ⟨hn, hh, hall, hnd⟩ :=
+    change_one_key_per_cosigner .repaired H C O cm p s rfl h j o po d ho hp hd hchange
+  rw [hq] at hq'
+  cases hq'
+  exact ⟨script, raw, c0, keys, hq, hraw, hshape, hcmds, hm, hkl, hkeys, hn, hh, hall, hnd⟩
+
+example : (∀ b, (Toy.hashes.hash160 b).length = 20) ∧
+    ∃ s d, describe .repaired Toy.hashes Toy.codec Toy.oracles Toy.cmap Toy.psbt = some s ∧
+      (Toy.codec.outs Toy.psbt.tx)[0]? = some Toy.changeOut ∧ Toy.psbt.outs[0]? = some Toy.changeMap ∧
+      s.outputs[0]? = some d ∧ d.isChange = true := by
+  refine ⟨fun b => by simp [Toy.hashes], ?_⟩
+  exact ⟨{ fee := 10, totalIn := 100, totalOut := 90, spend := 30, change := 60, isBatch := false, m := 1, n := 2,
+            inputs := [{ m := 1, n := 2, sats := 100 }],
+            outputs := [{ sats := 60, isChange := true }, { sats := 30, isChange := false }],
+            rootPaths := [([1, 1, 1, 1], [1, 1, 1, 1, 5, 0, 0, 0]), ([2, 2, 2, 2], [2, 2, 2, 2, 5, 0, 0, 0])] },
+    { sats := 60, isChange := true }, by decide, by decide, by decide, by decide, by decide⟩
+
+/-! ## C. mismatching metadata is refused, not summarised -/
+
+/-- an output map that `PSBTOut.validate` refuses makes the whole summary fail -/
+theorem describe_refuses_invalid_output {Tx} (cfg : DescribeCfg) (H : Hashes) (C : TxCodec Tx) (O : Oracles)
+    (cm : Dict Bytes) (p : Psbt Tx) (j : Nat) (o : TxOutV) (po : POut)
+    (ho : (C.outs p.tx)[j]? = some o) (hp : p.outs[j]? = some po)
+    (hbad : validateOut H o.spk po = none) : describe cfg H C O cm p = none := by
+  cases h : describe cfg H C O cm p with
+  | none => rfl
+  | some s =>
+    have := (describe_output_at h ho hp).1
+    rw [hbad] at this
+    cases this
+
+/-- an input map that `PSBTIn.validate` refuses makes the whole summary fail -/
+theorem describe_refuses_invalid_input {Tx} (cfg : DescribeCfg) (H : Hashes) (C : TxCodec Tx) (O : Oracles)
+    (cm : Dict Bytes) (p : Psbt Tx) (i : Nat) (txin : TxInV) (pin : PIn Tx)
+    (ht : (C.ins p.tx)[i]? = some txin) (hp : p.ins[i]? = some pin)
+    (hbad : validateIn H C txin pin = none) : describe cfg H C O cm p = none := by
+  cases h : describe cfg H C O cm p with
+  | none => rfl
+  | some s =>
+    have := (describe_input_at h ht hp).valid
+    rw [hbad] at this
+    cases this
+
+/-- swapped output scriptPubKey keeping the change metadata (F11b): with only a RedeemScript attached, a
+    scriptPubKey that is not the P2SH of that RedeemScript's hash160 is refused -/
+theorem tamper_swapped_spk {Tx} (cfg : DescribeCfg) (H : Hashes) (C : TxCodec Tx) (O : Oracles)
+    (cm : Dict Bytes) (p : Psbt Tx) (j : Nat) (o : TxOutV) (po : POut) (r : Script)
+    (ho : (C.outs p.tx)[j]? = some o) (hp : p.outs[j]? = some po)
+    (hw : po.witnessScript = none) (hr : po.redeem = some r)
+    (hbad : ¬(isP2sh o.spk = true ∧ o.spk.cmds[1]? = scriptHash160 H r)) :
+    describe cfg H C O cm p = none := by
+  apply describe_refuses_invalid_output cfg H C O cm p j o po ho hp
+  apply eq_none_of_not_some
+  intro hv
+  obtain ⟨h1, h2, _⟩ := validateOut_redeem_only hw hr hv
+  exact hbad ⟨h1, h2⟩
+
+/-- swapped output scriptPubKey, WitnessScript attached (F11c): the scriptPubKey must be P2WSH, or P2SH
+    with a P2WSH RedeemScript attached -/
+theorem tamper_witness_script_spk {Tx} (cfg : DescribeCfg) (H : Hashes) (C : TxCodec Tx) (O : Oracles)
+    (cm : Dict Bytes) (p : Psbt Tx) (j : Nat) (o : TxOutV) (po : POut) (ws : Script)
+    (ho : (C.outs p.tx)[j]? = some o) (hp : p.outs[j]? = some po)
+    (hw : po.witnessScript = some ws)
+    (hbad : ¬(isP2wsh o.spk = true ∨ (isP2sh o.spk = true ∧ ∃ r, po.redeem = some r ∧ isP2wsh r = true))) :
+    describe cfg H C O cm p = none := by
+  apply describe_refuses_invalid_output cfg H C O cm p j o po ho hp
+  apply eq_none_of_not_some
+  intro hv
+  obtain ⟨h1, h2, _⟩ := validateOut_witness hw hv
+  apply hbad
+  cases hr : po.redeem with
+  | none => exact Or.inl (h1 hr).1
+  | some r =>
+    have := (h2 r hr).1
+    simp only [Bool.or_eq_true, Bool.and_eq_true] at this
+    rcases this with h | ⟨h, h'⟩
+    · exact Or.inl h
+    · exact Or.inr ⟨h, r, rfl, h'⟩
+
+/-- foreign output script (P2WSH): the WitnessScript's sha256 differs from the scriptPubKey's program -/
+theorem tamper_foreign_output_witness_script {Tx} (cfg : DescribeCfg) (H : Hashes) (C : TxCodec Tx) (O : Oracles)
+    (cm : Dict Bytes) (p : Psbt Tx) (j : Nat) (o : TxOutV) (po : POut) (ws : Script)
+    (ho : (C.outs p.tx)[j]? = some o) (hp : p.outs[j]? = some po)
+    (hw : po.witnessScript = some ws) (hr : po.redeem = none)
+    (hbad : o.spk.cmds[1]? ≠ scriptSha256 H ws) :
+    describe cfg H C O cm p = none := by
+  apply describe_refuses_invalid_output cfg H C O cm p j o po ho hp
+  apply eq_none_of_not_some
+  intro hv
+  exact hbad ((validateOut_witness hw hv).1 hr).2
+
+/-- foreign output script (P2SH-P2WSH): the RedeemScript's hash160 differs from the scriptPubKey's hash,
+    or the WitnessScript's sha256 from the RedeemScript's program -/
+theorem tamper_foreign_output_script_p2sh_p2wsh {Tx} (cfg : DescribeCfg) (H : Hashes) (C : TxCodec Tx)
+    (O : Oracles) (cm : Dict Bytes) (p : Psbt Tx) (j : Nat) (o : TxOutV) (po : POut) (ws r : Script)
+    (ho : (C.outs p.tx)[j]? = some o) (hp : p.outs[j]? = some po)
+    (hw : po.witnessScript = some ws) (hr : po.redeem = some r)
+    (hbad : o.spk.cmds[1]? ≠ scriptHash160 H r ∨ r.cmds[1]? ≠ scriptSha256 H ws) :
+    describe cfg H C O cm p = none := by
+  apply describe_refuses_invalid_output cfg H C O cm p j o po ho hp
+  apply eq_none_of_not_some
+  intro hv
+  obtain ⟨_, h1, _, h2⟩ := (validateOut_witness hw hv).2.1 r hr
+  rcases hbad with hb | hb
+  · exact hb h1
+  · exact hb h2
+
+/-- foreign RedeemScript on an input without witness UTXO: unless the scriptPubKey being spent is the
+    P2SH of the RedeemScript's hash160, refused -/
+theorem tamper_foreign_input_script {Tx} (cfg : DescribeCfg) (H : Hashes) (C : TxCodec Tx) (O : Oracles)
+    (cm : Dict Bytes) (p : Psbt Tx) (i : Nat) (txin : TxInV) (pin : PIn Tx) (r : Script)
+    (ht : (C.ins p.tx)[i]? = some txin) (hp : p.ins[i]? = some pin)
+    (hpo : pin.prevOut = none) (hr : pin.redeem = some r)
+    (hbad : ¬∃ spk, pin.scriptPubkey C txin = some (some spk) ∧ isP2sh spk = true ∧
+      spk.cmds[1]? = scriptHash160 H r) :
+    describe cfg H C O cm p = none := by
+  apply describe_refuses_invalid_input cfg H C O cm p i txin pin ht hp
+  apply eq_none_of_not_some
+  intro hv
+  obtain ⟨spk, h1, h2, _, h3, _⟩ := validateIn_legacy_redeem hpo hr hv
+  exact hbad ⟨spk, h1, h2, h3⟩
+
+/-- foreign WitnessScript on a P2WSH input (witness UTXO present): its sha256 differs from the program -/
+theorem tamper_foreign_input_witness_script {Tx} (cfg : DescribeCfg) (H : Hashes) (C : TxCodec Tx) (O : Oracles)
+    (cm : Dict Bytes) (p : Psbt Tx) (i : Nat) (txin : TxInV) (pin : PIn Tx) (utxo : TxOutV) (ws : Script)
+    (ht : (C.ins p.tx)[i]? = some txin) (hp : p.ins[i]? = some pin)
+    (hpo : pin.prevOut = some utxo) (hw : pin.witnessScript = some ws) (hr : pin.redeem = none)
+    (hbad : utxo.spk.cmds[1]? ≠ scriptSha256 H ws) :
+    describe cfg H C O cm p = none := by
+  apply describe_refuses_invalid_input cfg H C O cm p i txin pin ht hp
+  apply eq_none_of_not_some
+  intro hv
+  obtain ⟨spk, _, _, _, h4⟩ := validateIn_witness hpo hv
+  exact hbad ((h4 ws hw).1 hr).2
+
+/-- foreign scripts on a P2SH-P2WSH input (witness UTXO present): RedeemScript hash160 ≠ the hash in the
+    scriptPubKey being spent, or WitnessScript sha256 ≠ the RedeemScript's program -/
+theorem tamper_foreign_input_script_p2sh_p2wsh {Tx} (cfg : DescribeCfg) (H : Hashes) (C : TxCodec Tx)
+    (O : Oracles) (cm : Dict Bytes) (p : Psbt Tx) (i : Nat) (txin : TxInV) (pin : PIn Tx) (utxo : TxOutV)
+    (ws r : Script)
+    (ht : (C.ins p.tx)[i]? = some txin) (hp : p.ins[i]? = some pin)
+    (hpo : pin.prevOut = some utxo) (hw : pin.witnessScript = some ws) (hr : pin.redeem = some r)
+    (hbad : (∀ spk, pin.scriptPubkey C txin = some (some spk) → spk.cmds[1]? ≠ scriptHash160 H r) ∨
+      r.cmds[1]? ≠ scriptSha256 H ws) :
+    describe cfg H C O cm p = none := by
+  apply describe_refuses_invalid_input cfg H C O cm p i txin pin ht hp
+  apply eq_none_of_not_some
+  intro hv
+  obtain ⟨spk, h1, _, _, h4⟩ := validateIn_witness hpo hv
+  obtain ⟨_, h5, _, h6⟩ := (h4 ws hw).2.1 r hr
+  rcases hbad with hb | hb
+  · exact hb spk h1 h5
+  · exact hb h6
+
+/-- a witness UTXO on a bare-P2SH input (F11f): a RedeemScript that is not a witness program is refused
+    (before the repair this sent validation down the witness branch, where it was not checked at all) -/
+theorem tamper_witness_utxo_on_legacy {Tx} (cfg : DescribeCfg) (H : Hashes) (C : TxCodec Tx) (O : Oracles)
+    (cm : Dict Bytes) (p : Psbt Tx) (i : Nat) (txin : TxInV) (pin : PIn Tx) (utxo : TxOutV) (spk r : Script)
+    (ht : (C.ins p.tx)[i]? = some txin) (hp : p.ins[i]? = some pin)
+    (hpo : pin.prevOut = some utxo) (hspk : pin.scriptPubkey C txin = some (some spk))
+    (hsh : isP2sh spk = true) (hr : pin.redeem = some r) (hnw : isWitnessProgram r = false) :
+    describe cfg H C O cm p = none := by
+  apply describe_refuses_invalid_input cfg H C O cm p i txin pin ht hp
+  apply eq_none_of_not_some
+  intro hv
+  obtain ⟨spk', h1, _, h3, _⟩ := validateIn_witness hpo hv
+  rw [hspk] at h1
+  cases h1
+  have := h3 r hr
+  simp [hsh, hnw] at this
+
+/-- altered previous transaction: the attached non-witness UTXO does not hash to the outpoint -/
+theorem tamper_prev_tx {Tx} (cfg : DescribeCfg) (H : Hashes) (C : TxCodec Tx) (O : Oracles)
+    (cm : Dict Bytes) (p : Psbt Tx) (i : Nat) (txin : TxInV) (pin : PIn Tx) (t : Tx)
+    (ht : (C.ins p.tx)[i]? = some txin) (hp : p.ins[i]? = some pin)
+    (hpt : pin.prevTx = some t) (hbad : C.hash t ≠ some txin.prevTx) :
+    describe cfg H C O cm p = none := by
+  apply describe_refuses_invalid_input cfg H C O cm p i txin pin ht hp
+  apply eq_none_of_not_some
+  intro hv
+  exact hbad (validateIn_prevTx hpt hv).1
+
+/-- altered UTXO amount (F11d): with both UTXO kinds attached, a witness UTXO whose amount or script
+    differs from the previous transaction's output is refused -/
+theorem tamper_utxo_amount {Tx} (cfg : DescribeCfg) (H : Hashes) (C : TxCodec Tx) (O : Oracles)
+    (cm : Dict Bytes) (p : Psbt Tx) (i : Nat) (txin : TxInV) (pin : PIn Tx) (t : Tx) (wutxo : TxOutV)
+    (ht : (C.ins p.tx)[i]? = some txin) (hp : p.ins[i]? = some pin)
+    (hpt : pin.prevTx = some t) (hpo : pin.prevOut = some wutxo)
+    (hbad : ∀ utxo, (C.outs t)[txin.prevIndex]? = some utxo →
+      utxo.amount ≠ wutxo.amount ∨ utxo.spk.cmds ≠ wutxo.spk.cmds) :
+    describe cfg H C O cm p = none := by
+  apply describe_refuses_invalid_input cfg H C O cm p i txin pin ht hp
+  apply eq_none_of_not_some
+  intro hv
+  obtain ⟨utxo, hu, ha, hs⟩ := validateIn_both_utxos hpt hpo hv
+  rcases hbad utxo hu with hb | hb
+  · exact hb ha
+  · exact hb hs
+
+/-- the amount an input contributes to the summary is the one of the UTXO record(s) validated above:
+    a summary exists only if every input has a recorded value -/
+theorem tamper_missing_utxo {Tx} (cfg : DescribeCfg) (H : Hashes) (C : TxCodec Tx) (O : Oracles)
+    (cm : Dict Bytes) (p : Psbt Tx) (i : Nat) (txin : TxInV) (pin : PIn Tx)
+    (ht : (C.ins p.tx)[i]? = some txin) (hp : p.ins[i]? = some pin) (hbad : pin.value = none) :
+    describe cfg H C O cm p = none := by
+  cases h : describe cfg H C O cm p with
+  | none => rfl
+  | some s =>
+    obtain ⟨sats, hs⟩ := (describe_input_at h ht hp).value
+    rw [hbad] at hs
+    cases hs
+
+/-- wrong path or foreign xpub on an input: a named pubkey that the cosigner's xpub does not derive at
+    the stated path -/
+theorem tamper_wrong_derivation_input {Tx} (cfg : DescribeCfg) (H : Hashes) (C : TxCodec Tx) (O : Oracles)
+    (cm : Dict Bytes) (p : Psbt Tx) (i : Nat) (txin : TxInV) (pin : PIn Tx) (sec rawPath body : Bytes)
+    (ht : (C.ins p.tx)[i]? = some txin) (hp : p.ins[i]? = some pin)
+    (hmem : (sec, rawPath) ∈ pin.namedPubs)
+    (hfp : dget (hmapOf cm p) (rawPath.take Gen.psbtFingerprintWidth) = some body)
+    (hbad : deriveAt O body rawPath ≠ some sec) :
+    describe cfg H C O cm p = none := by
+  cases h : describe cfg H C O cm p with
+  | none => rfl
+  | some s =>
+    obtain ⟨xfps, hx⟩ := (describe_input_at h ht hp).named
+    obtain ⟨body', hb, hd⟩ := (checkNamedPubs_some hx).2 sec rawPath hmem
+    rw [hfp] at hb
+    cases hb
+    exact (hbad hd).elim
+
+/-- foreign fingerprint on an input: a named pubkey whose fingerprint is not in the map -/
+theorem tamper_foreign_fingerprint_input {Tx} (cfg : DescribeCfg) (H : Hashes) (C : TxCodec Tx) (O : Oracles)
+    (cm : Dict Bytes) (p : Psbt Tx) (i : Nat) (txin : TxInV) (pin : PIn Tx) (sec rawPath : Bytes)
+    (ht : (C.ins p.tx)[i]? = some txin) (hp : p.ins[i]? = some pin)
+    (hmem : (sec, rawPath) ∈ pin.namedPubs)
+    (hbad : dget (hmapOf cm p) (rawPath.take Gen.psbtFingerprintWidth) = none) :
+    describe cfg H C O cm p = none := by
+  cases h : describe cfg H C O cm p with
+  | none => rfl
+  | some s =>
+    obtain ⟨xfps, hx⟩ := (describe_input_at h ht hp).named
+    obtain ⟨body', hb, _⟩ := (checkNamedPubs_some hx).2 sec rawPath hmem
+    rw [hbad] at hb
+    cases hb
+
+/-- wrong path or foreign xpub on an output claiming to be change -/
+theorem tamper_wrong_derivation_output {Tx} (cfg : DescribeCfg) (H : Hashes) (C : TxCodec Tx) (O : Oracles)
+    (cm : Dict Bytes) (p : Psbt Tx) (j : Nat) (o : TxOutV) (po : POut) (sec rawPath body : Bytes)
+    (ho : (C.outs p.tx)[j]? = some o) (hp : p.outs[j]? = some po)
+    (hmem : (sec, rawPath) ∈ po.namedPubs)
+    (hfp : dget (hmapOf cm p) (rawPath.take Gen.psbtFingerprintWidth) = some body)
+    (hbad : deriveAt O body rawPath ≠ some sec) :
+    describe cfg H C O cm p = none := by
+  cases h : describe cfg H C O cm p with
+  | none => rfl
+  | some s =>
+    have hne : po.namedPubs ≠ [] := List.ne_nil_of_mem hmem
+    obtain ⟨_, xfps, _, _, _, hx, _⟩ := changeOK_some ((describe_output_at h ho hp).2.2.2 hne)
+    obtain ⟨body', hb, hd⟩ := (checkNamedPubs_some hx).2 sec rawPath hmem
+    rw [hfp] at hb
+    cases hb
+    exact (hbad hd).elim
+
+/-- foreign fingerprint on an output claiming to be change -/
+theorem tamper_foreign_fingerprint_output {Tx} (cfg : DescribeCfg) (H : Hashes) (C : TxCodec Tx) (O : Oracles)
+    (cm : Dict Bytes) (p : Psbt Tx) (j : Nat) (o : TxOutV) (po : POut) (sec rawPath : Bytes)
+    (ho : (C.outs p.tx)[j]? = some o) (hp : p.outs[j]? = some po)
+    (hmem : (sec, rawPath) ∈ po.namedPubs)
+    (hbad : dget (hmapOf cm p) (rawPath.take Gen.psbtFingerprintWidth) = none) :
+    describe cfg H C O cm p = none := by
+  cases h : describe cfg H C O cm p with
+  | none => rfl
+  | some s =>
+    have hne : po.namedPubs ≠ [] := List.ne_nil_of_mem hmem
+    obtain ⟨_, xfps, _, _, _, hx, _⟩ := changeOK_some ((describe_output_at h ho hp).2.2.2 hne)
+    obtain ⟨body', hb, _⟩ := (checkNamedPubs_some hx).2 sec rawPath hmem
+    rw [hbad] at hb
+    cases hb
+
+/-- change script whose keys come from one cosigner (F11a repaired): two named pubkeys of an output
+    carrying the same fingerprint -/
+theorem tamper_one_cosigner_change {Tx} (cfg : DescribeCfg) (H : Hashes) (C : TxCodec Tx) (O : Oracles)
+    (cm : Dict Bytes) (p : Psbt Tx) (hdx : cfg.distinctXfps = true) (j : Nat) (o : TxOutV) (po : POut)
+    (a b : Nat) (e1 e2 : Bytes × Bytes)
+    (ho : (C.outs p.tx)[j]? = some o) (hp : p.outs[j]? = some po)
+    (ha : po.namedPubs[a]? = some e1) (hb : po.namedPubs[b]? = some e2) (hab : a ≠ b)
+    (hsame : e1.2.take Gen.psbtFingerprintWidth = e2.2.take Gen.psbtFingerprintWidth) :
+    describe cfg H C O cm p = none := by
+  cases h : describe cfg H C O cm p with
+  | none => rfl
+  | some s =>
+    exfalso
+    have hne : po.namedPubs ≠ [] := by
+      intro hnil
+      rw [hnil] at ha
+      simp at ha
+    have hd : s.outputs[j]? = some (outDescOf o po) := (describe_output_at h ho hp).2.2.1
+    obtain ⟨_, _, _, hnd⟩ := change_one_key_per_cosigner cfg H C O cm p s hdx h j o po _ ho hp hd
+      (by simp [outDescOf, hne])
+    have ha' : (po.namedPubs.map (fun e => e.2.take Gen.psbtFingerprintWidth))[a]? =
+        some (e1.2.take Gen.psbtFingerprintWidth) := by simp [ha]
+    have hb' : (po.namedPubs.map (fun e => e.2.take Gen.psbtFingerprintWidth))[b]? =
+        some (e1.2.take Gen.psbtFingerprintWidth) := by simp [hb, hsame]
+    have hal : a < (po.namedPubs.map (fun e => e.2.take Gen.psbtFingerprintWidth)).length := by
+      have := (List.getElem?_eq_some_iff.mp ha').1
+      exact this
+    exact hab ((List.getElem?_inj hal hnd).mp (ha'.trans hb'.symm))
+
+/-- changed quorum: an output carrying derivations whose script has another quorum than an input's -/
+theorem tamper_changed_quorum {Tx} (cfg : DescribeCfg) (H : Hashes) (C : TxCodec Tx) (O : Oracles)
+    (cm : Dict Bytes) (p : Psbt Tx) (i : Nat) (txin : TxInV) (pin : PIn Tx) (si : Script) (m n : Int)
+    (j : Nat) (o : TxOutV) (po : POut)
+    (ht : (C.ins p.tx)[i]? = some txin) (hpi : p.ins[i]? = some pin)
+    (hqi : scriptQuorum pin.witnessScript pin.redeem = some (si, m, n))
+    (ho : (C.outs p.tx)[j]? = some o) (hp : p.outs[j]? = some po) (hne : po.namedPubs ≠ [])
+    (hbad : ∀ so, scriptQuorum po.witnessScript po.redeem ≠ some (so, m, n)) :
+    describe cfg H C O cm p = none := by
+  cases h : describe cfg H C O cm p with
+  | none => rfl
+  | some s =>
+    exfalso
+    obtain ⟨script, m', n', _, hq, hm, hn, _⟩ := (describe_input_at h ht hpi).quorum
+    rw [hqi] at hq
+    cases hq
+    cases hm
+    cases hn
+    obtain ⟨so, _, hqo, _⟩ := changeOK_some ((describe_output_at h ho hp).2.2.2 hne)
+    exact hbad so hqo
+
+/-- not a plain multisig (F11e repaired): an output carrying derivations whose script is not exactly
+    `<m> <the named pubkeys> <n> OP_CHECKMULTISIG` -/
+theorem tamper_not_plain_multisig {Tx} (cfg : DescribeCfg) (H : Hashes) (C : TxCodec Tx) (O : Oracles)
+    (cm : Dict Bytes) (p : Psbt Tx) (hpm : cfg.plainMultisig = true) (j : Nat) (o : TxOutV) (po : POut)
+    (ho : (C.outs p.tx)[j]? = some o) (hp : p.outs[j]? = some po) (hne : po.namedPubs ≠ [])
+    (hbad : ∀ script m n, scriptQuorum po.witnessScript po.redeem = some (script, m, n) →
+      plainMultisigOf script n po.namedPubs = false) :
+    describe cfg H C O cm p = none := by
+  cases h : describe cfg H C O cm p with
+  | none => rfl
+  | some s =>
+    exfalso
+    obtain ⟨so, _, hqo, hplain, _⟩ := changeOK_some ((describe_output_at h ho hp).2.2.2 hne)
+    have := hbad so s.m s.n hqo
+    rw [hplain hpm] at this
+    cases this
+
+/-- second change output: two different outputs carrying derivations -/
+theorem tamper_second_change {Tx} (cfg : DescribeCfg) (H : Hashes) (C : TxCodec Tx) (O : Oracles)
+    (cm : Dict Bytes) (p : Psbt Tx) (j1 j2 : Nat) (o1 o2 : TxOutV) (po1 po2 : POut)
+    (ho1 : (C.outs p.tx)[j1]? = some o1) (hp1 : p.outs[j1]? = some po1) (hne1 : po1.namedPubs ≠ [])
+    (ho2 : (C.outs p.tx)[j2]? = some o2) (hp2 : p.outs[j2]? = some po2) (hne2 : po2.namedPubs ≠ [])
+    (hj : j1 ≠ j2) :
+    describe cfg H C O cm p = none := by
+  cases h : describe cfg H C O cm p with
+  | none => rfl
+  | some s =>
+    exfalso
+    have hd1 := (describe_output_at h ho1 hp1).2.2.1
+    have hd2 := (describe_output_at h ho2 hp2).2.2.1
+    exact hj ((summary_single_change cfg H C O cm p s h).1 j1 j2 _ _ hd1 hd2
+      (by simp [outDescOf, hne1]) (by simp [outDescOf, hne2]))
+
+/-! ### the hypotheses of the `tamper_*` theorems are satisfiable
+
+Each theorem's hypotheses are equations about fields of the PSBT plus one (in)equation describing the
+tampering; below, most of them are instantiated on variants of the toy PSBT `Toy.psbt` (an honest 1-of-2
+P2WSH spend, summarised above), by applying the theorem itself.  The remaining ones
+(`tamper_foreign_input_script`, `tamper_foreign_output_witness_script`, `..._p2sh_p2wsh`,
+`tamper_witness_utxo_on_legacy`, `tamper_prev_tx`, `tamper_missing_utxo`, `tamper_*_input`,
+`tamper_foreign_fingerprint_*`) have hypotheses of the same shape. -/
+
+example : describe .repaired Toy.hashes Toy.codec Toy.oracles Toy.cmap Toy.psbtSwapped = none :=
+  tamper_swapped_spk _ _ _ _ _ _ 0 Toy.swappedOut Toy.swappedMap (Toy.walletScript 6)
+    (by decide) (by decide) (by decide) (by decide) (by decide)
+
+example : describe .repaired Toy.hashes Toy.codec Toy.oracles Toy.cmap Toy.psbtOp1 = none :=
+  tamper_witness_script_spk _ _ _ _ _ _ 0 Toy.op1Out Toy.changeMap (Toy.walletScript 6)
+    (by decide) (by decide) (by decide)
+    (by
+      rintro (h | ⟨h, _⟩)
+      · revert h; decide
+      · revert h; decide)
+
+example : describe .repaired Toy.hashes Toy.codec Toy.oracles Toy.cmap Toy.psbtForeignWs = none :=
+  tamper_foreign_input_witness_script _ _ _ _ _ _ 0 Toy.txin Toy.pinForeignWs
+    { amount := 100, spk := Toy.p2wshOf (Toy.walletScript 5) } (Toy.walletScript 7)
+    (by decide) rfl (by decide) (by decide) (by decide) (by decide)
+
+example : describe .repaired Toy.hashes Toy.codec Toy.oracles Toy.cmap Toy.psbtAmount = none :=
+  tamper_utxo_amount _ _ _ _ _ _ 0 Toy.txin Toy.pinBoth Toy.prevT
+    { amount := 1000, spk := Toy.p2wshOf (Toy.walletScript 5) }
+    (by decide) rfl (by decide) (by decide)
+    (by
+      intro utxo hu
+      have : utxo = { amount := 100, spk := Toy.p2wshOf (Toy.walletScript 5) } := by
+        have h0 : (Toy.codec.outs Toy.prevT)[Toy.txin.prevIndex]? =
+            some { amount := 100, spk := Toy.p2wshOf (Toy.walletScript 5) } := by decide
+        rw [h0] at hu
+        exact (Option.some.inj hu).symm
+      subst this
+      left; decide)
+
+example : describe .repaired Toy.hashes Toy.codec Toy.oracles Toy.cmap Toy.psbtOneCosigner = none :=
+  tamper_one_cosigner_change _ _ _ _ _ _ rfl 0 Toy.oneCosigner.1 Toy.oneCosigner.2 0 1
+    (Toy.body1 ++ [6], Toy.fp1 ++ [6, 0, 0, 0]) (Toy.body1 ++ [7], Toy.fp1 ++ [7, 0, 0, 0])
+    (by decide) (by decide) (by decide) (by decide) (by decide) (by decide)
+
+example : describe .repaired Toy.hashes Toy.codec Toy.oracles Toy.cmap Toy.psbtTwoChange = none :=
+  tamper_second_change _ _ _ _ _ _ 0 1 Toy.changeOut Toy.change7.1 Toy.changeMap Toy.change7.2
+    (by decide) (by decide) (by decide) (by decide) (by decide) (by decide) (by decide)
+
+example : describe .repaired Toy.hashes Toy.codec Toy.oracles Toy.cmap Toy.psbtQuorum = none :=
+  tamper_changed_quorum _ _ _ _ _ _ 0 Toy.txin Toy.pin (Toy.walletScript 5) 1 2 0 Toy.quorum22.1 Toy.quorum22.2
+    (by decide) rfl (by decide) (by decide) (by decide) (by decide)
+    (by
+      intro so hq
+      have h0 : scriptQuorum Toy.quorum22.2.witnessScript Toy.quorum22.2.redeem =
+          some ({ cmds := [.op 82, .push (Toy.body1 ++ [6]), .push (Toy.body2 ++ [6]), .op 82, .op 174] }, 2, 2) := by
+        decide
+      rw [h0] at hq
+      have := (Prod.mk.inj (Prod.mk.inj (Option.some.inj hq)).2).1
+      revert this; decide)
+
+example : describe .repaired Toy.hashes Toy.codec Toy.oracles Toy.cmap Toy.psbtNotPlain = none :=
+  tamper_not_plain_multisig _ _ _ _ _ _ rfl 0 Toy.notPlain.1 Toy.notPlain.2
+    (by decide) (by decide) (by decide)
+    (by
+      intro script m n hq
+      have h0 : scriptQuorum Toy.notPlain.2.witnessScript Toy.notPlain.2.redeem = some (Toy.notPlainScript, 1, 2) := by
+        decide
+      rw [h0] at hq
+      obtain ⟨rfl, rfl, rfl⟩ : Toy.notPlainScript = script ∧ (1 : Int) = m ∧ (2 : Int) = n := by
+        have := Option.some.inj hq
+        exact ⟨(Prod.mk.inj this).1, (Prod.mk.inj (Prod.mk.inj this).2).1, (Prod.mk.inj (Prod.mk.inj this).2).2⟩
+      decide)
+
+example : describe .repaired Toy.hashes Toy.codec Toy.oracles Toy.cmap Toy.psbtWrongPath = none :=
+  tamper_wrong_derivation_output _ _ _ _ _ _ 0 Toy.wrongPath.1 Toy.wrongPath.2
+    (Toy.body1 ++ [7]) (Toy.fp1 ++ [6, 0, 0, 0]) Toy.body1
+    (by decide) (by decide) (by decide) (by decide) (by decide)
+
+/-! ## D. the defects, with the repair flags off; an open observation -/
+
+/-- F11a: without the fingerprint test, a change script made of two keys of ONE cosigner (each with that
+    cosigner's fingerprint and a valid path) is labelled change — conclusion B.3 fails. -/
+theorem F11a_witness :
+    ∃ s d, describe { distinctXfps := false, plainMultisig := true } Toy.hashes Toy.codec Toy.oracles Toy.cmap
+        Toy.psbtOneCosigner = some s ∧
+      s.outputs[0]? = some d ∧ d.isChange = true ∧
+      ¬(Toy.oneCosigner.2.namedPubs.map (fun e => e.2.take Gen.psbtFingerprintWidth)).Nodup := by
+  refine ⟨{ fee := 10, totalIn := 100, totalOut := 90, spend := 30, change := 60, isBatch := false, m := 1, n := 2,
+            inputs := [{ m := 1, n := 2, sats := 100 }],
+            outputs := [{ sats := 60, isChange := true }, { sats := 30, isChange := false }],
+            rootPaths := [([1, 1, 1, 1], [1, 1, 1, 1, 5, 0, 0, 0]), ([2, 2, 2, 2], [2, 2, 2, 2, 5, 0, 0, 0])] },
+    { sats := 60, isChange := true }, by decide, by decide, by decide, by decide⟩
+
+/-- F11e: without the plain-multisig test, `1 <k1> <k2> OP_2DROP 1 <a> <b> 2 OP_CHECKMULTISIG` — which
+    `a` or `b` alone can spend — is labelled change because `get_quorum` reads 1-of-2 off its ends and the
+    named keys occur in it — conclusion B.2 fails. -/
+theorem F11e_witness :
+    ∃ s d, describe { distinctXfps := true, plainMultisig := false } Toy.hashes Toy.codec Toy.oracles Toy.cmap
+        Toy.psbtNotPlain = some s ∧
+      s.outputs[0]? = some d ∧ d.isChange = true ∧
+      scriptQuorum Toy.notPlain.2.witnessScript Toy.notPlain.2.redeem = some (Toy.notPlainScript, s.m, s.n) ∧
+      plainMultisigOf Toy.notPlainScript s.n Toy.notPlain.2.namedPubs = false := by
+  refine ⟨{ fee := 10, totalIn := 100, totalOut := 90, spend := 30, change := 60, isBatch := false, m := 1, n := 2,
+            inputs := [{ m := 1, n := 2, sats := 100 }],
+            outputs := [{ sats := 60, isChange := true }, { sats := 30, isChange := false }],
+            rootPaths := [([1, 1, 1, 1], [1, 1, 1, 1, 5, 0, 0, 0]), ([2, 2, 2, 2], [2, 2, 2, 2, 5, 0, 0, 0])] },
+    { sats := 60, isChange := true }, by decide, by decide, by decide, by decide, by decide⟩
+
+/-- Observation (candidate finding "F11g", NOT repaired, reproduced by the model of the repaired code):
+    `PSBTIn.validate` looks at the WitnessScript only in its witness-UTXO branch.  On an input that carries
+    only the non-witness UTXO (allowed, and common, for segwit inputs) the attached WitnessScript is never
+    compared with the scriptPubKey being spent — validation does not depend on it at all. -/
+theorem F11g_witness_validate {Tx} (H : Hashes) (C : TxCodec Tx) (txin : TxInV) (pin : PIn Tx) (ws : Option Script)
+    (hpo : pin.prevOut = none) :
+    validateIn H C txin { pin with witnessScript := ws } = validateIn H C txin pin := by
+  unfold validateIn PIn.scriptPubkey
+  simp only [hpo]
+
+/-- … and `describe` then takes the inputs' quorum from that unchecked script: here the UTXO being spent
+    is the P2WSH of a 2-of-2 script, the attached WitnessScript is a 1-of-2 script, and the summary says
+    1-of-2 (so a 1-of-2 change script is accepted). -/
+theorem F11g_witness_describe :
+    ∃ s utxo ws, describe .repaired Toy.hashes Toy.codec Toy.oracles Toy.cmap Toy.psbtUnchecked = some s ∧
+      s.m = 1 ∧ s.n = 2 ∧
+      (Toy.codec.outs Toy.prevT22)[Toy.txin.prevIndex]? = some utxo ∧
+      Toy.pinUnchecked.witnessScript = some ws ∧ utxo.spk.cmds[1]? ≠ scriptSha256 Toy.hashes ws := by
+  refine ⟨{ fee := 10, totalIn := 100, totalOut := 90, spend := 30, change := 60, isBatch := false, m := 1, n := 2,
+            inputs := [{ m := 1, n := 2, sats := 100 }],
+            outputs := [{ sats := 60, isChange := true }, { sats := 30, isChange := false }],
+            rootPaths := [([1, 1, 1, 1], [1, 1, 1, 1, 5, 0, 0, 0]), ([2, 2, 2, 2], [2, 2, 2, 2, 5, 0, 0, 0])] },
+    _, _, by decide, rfl, rfl, rfl, rfl, by decide⟩
 
 end Buidl.Props.C11
